@@ -385,7 +385,11 @@ class Validator:
                     i += 1
                     if prm is not None and (prm["only_for"] is None or low in prm["only_for"]):
                         if i >= len(args):
-                            raise Invalid("tag-parameter-missing", getattr(n, "end_index", None), cmd=n.name)
+                            # the tag is the last argument and its parameter is omitted: an omitted TRAILING required argument,
+                            # which the property places outside the claim (like `reject;`); a parameter missing in the middle
+                            # of the arguments is a type error below
+                            self.flags.append("omitted-trailing-arguments")
+                            continue
                         k2, v2, t2 = args[i]
                         ok = (k2 == prm["type"]) or (prm["type"] == "stringlist" and k2 == "string")
                         if not ok:
